@@ -188,6 +188,18 @@ CLAIMED = {
         design='DESIGN.md §5 C16',
         note=NOTE_COMMON + 'PARTIAL: cells of amount/position/cost/inventory/dict columns are instantiated with the real renderers\' strings (DisplayContext number formatting and csv quoting are trusted); width = len (no wide characters).',
         technique='Lean 4 proof over the layout model + full-output correspondence + read-back/alignment oracles'),
+    'C11': dict(
+        text=('Lean theorems (thin by design): the postings table has exactly one row per posting of every transaction (count, '
+              'membership as an iff, ledger order), typed tables are the directives of their kind in ledger order, other_accounts '
+              'is exactly the set of sibling accounts excluding this posting by position, meta / entry_meta / any_meta look-ups '
+              '(NULL for missing keys and for postings without a metadata dict); `decide` theorems over the GENERATED column '
+              'declarations: every column the property names exists with the expected datatype, no two columns of a table '
+              'compare equal, the postings wildcard. The main weight is correspondence: on generated ledgers loaded by the real '
+              'loader, every column of every table and every metadata function is compared cell by cell with a direct traversal '
+              'of the loaded entries, and the row structure / other_accounts with the Lean model.'),
+        design='DESIGN.md §5 C11',
+        note=NOTE_COMMON + 'id (hash_entry), weight (get_weight) and Position are Beancount functions: compared with a direct call, not modelled.',
+        technique='Lean 4 proof (row structure, lookups, generated column table by decide) + per-column traversal correspondence'),
 }
 
 PENDING_REASON = 'check under construction in this round (model or correspondence not yet registered); not claimed yet'
